@@ -69,4 +69,61 @@ def uniqCols : List Arr → Bool
 end
 
 
+/-- type-level `findKind`: the first field named `n` whose type has the kind (struct / non-struct) of `t` -/
+def findKindTy (names : List String) (tys : List Ty) (n : String) (t : Ty) : Option Ty :=
+  match names, tys with
+  | m :: ms, u :: us => if m = n && sameKind u t then some u else findKindTy ms us n t
+  | _, _ => none
+
+/-- a merged struct row from its field values: NULL iff both input rows are NULL -/
+def rowOf (lv rv : Value) (o : Option (List (String × Value))) : Option Value :=
+  if lv.isNull && rv.isNull then some .null
+  else
+    match o with
+    | some nvs => some (.struct (nvs.map (·.1)) (nvs.map (·.2)))
+    | none => none
+
+/-- the merged fields of one row of `merge_with_schema` (reference fields `(names, tys)` in order; a field found on
+    neither side is skipped); struct fields on both sides recursively -/
+def mwsVals (ln : List String) (lt : List Ty) (rn : List String) (rt : List Ty) (lv rv : Value) :
+    List String → List Ty → Option (List (String × Value))
+  | n :: ns, t :: ts =>
+    match mwsVals ln lt rn rt lv rv ns ts with
+    | none => none
+    | some rest =>
+      match findKindTy ln lt n t, findKindTy rn rt n t with
+      | none, none => some rest
+      | none, some _ => some ((n, fieldV rv n) :: rest)
+      | some _, none => some ((n, fieldV lv n) :: rest)
+      | some lty, some rty =>
+        match t with
+        | .struct sn st =>
+          match lty, rty with
+          | .struct lsn lst, .struct rsn rst =>
+            match rowOf (fieldV lv n) (fieldV rv n) (mwsVals lsn lst rsn rst (fieldV lv n) (fieldV rv n) sn st) with
+            | some v => some ((n, v) :: rest)
+            | none => none
+          | _, _ => some ((n, fieldV lv n) :: rest)
+        | .list _ _ => none
+        | _ => some ((n, fieldV lv n) :: rest)
+  | _, _ => some []
+
+/-- row-wise specification of `merge_with_schema` for two struct columns of types `struct ln lt` / `struct rn rt` and the
+    reference fields `(fn, ft)`; `none` = outside the specified region: a list-typed reference field present on both sides
+    (its content is specified element-wise only for equal list shapes; see `trimmed_rebased_spec` and the harness oracle) -/
+def mwsRow (ln : List String) (lt : List Ty) (rn : List String) (rt : List Ty) (fn : List String) (ft : List Ty)
+    (lv rv : Value) : Option Value :=
+  rowOf lv rv (mwsVals ln lt rn rt lv rv fn ft)
+
+mutual
+/-- nesting depth of an array (leaf = 0) -/
+def depth : Arr → Nat
+  | .prim _ _ _ _ _ => 0
+  | .list _ _ _ _ _ child => depth child + 1
+  | .struct _ _ _ cols => depthCols cols + 1
+def depthCols : List Arr → Nat
+  | [] => 0
+  | a :: as => max (depth a) (depthCols as)
+end
+
 end LanceModel.C40
